@@ -17,6 +17,7 @@ From Astisub Require Import Model.Ssa Proofs.SsaIgnore Model.SsaC Proofs.SsaChk.
 From Astisub Require Import Kit.Chk Model.SrtC Model.VttC Proofs.SrtChk Proofs.VttChk Model.Dur Model.DurC Proofs.DurChk.
 From Astisub Require Import Model.Stl Model.StlIO Proofs.StlBlocks Proofs.StlIOProofs.
 From Astisub Require Import Kit.Xml Model.Ttml Model.PlainTtml Proofs.TtmlBase Proofs.TtmlIO.
+From Astisub Require Model.TtmlC Proofs.TtmlChk.
 Import ListNotations.
 
 Theorem C08_srt_reader_total : forall (ls : list (list N)) (scan_err : bool) (p : N), read_srt_lines ls scan_err <> Panic p.
@@ -253,3 +254,34 @@ Print Assumptions C08_stl_checked_gsi_block.
 Print Assumptions C08_stl_checked_tti_block.
 Print Assumptions C08_stl_checked_cue_list.
 Print Assumptions C08_stl_checked_tables.
+(* ---- TTML: checked transcriptions (Model/TtmlC.v) ----
+   Every run-time panic site of ttml.go and of propagateTTMLAttributes (regexp sub-match indices and the slicing of
+   the text by them, the Begin/End pointers of a paragraph, the stores into the style/region maps, the nil-able
+   Metadata / InlineStyle / Style / Region pointers and nil map entries of the writer's input, Items[:len-1]) is a
+   checked access behind the code's own guard, with the Go line number as site (table: notes/C03-panic-sites.md).
+   The checked functions are equal to the pattern-matching models on which the fidelity theorems are stated, never
+   return Panic, and the driver of the correspondence runs them.  The only library contract is the length (4) of the
+   regexp results, stated as lemmas about the matcher models.  Dropping the Begin == nil guard makes Panic reachable.
+   In a module because Model/TtmlC.v shares names with other models. *)
+Module C08_TTML.
+Import Astisub.Model.TtmlC Astisub.Proofs.TtmlChk.
+Theorem C08_ttml_checked_time_agrees : forall s, ttml_unmarshal_c s = Ok (ttml_unmarshal s).
+Proof. exact ttml_unmarshal_c_agrees. Qed.
+Theorem C08_ttml_checked_reader_agrees : forall root, read_ttml_c root = read_ttml root.
+Proof. exact read_ttml_c_agrees. Qed.
+Theorem C08_ttml_checked_reader_total : forall root (p : N), read_ttml_c root <> Panic p.
+Proof. exact read_ttml_c_total. Qed.
+Theorem C08_ttml_checked_writer_agrees : forall w, write_ttml_c w = write_ttml (wdoc_proj w).
+Proof. exact write_ttml_c_agrees. Qed.
+Theorem C08_ttml_checked_writer_total : forall w (p : N), write_ttml_c w <> Panic p.
+Proof. exact write_ttml_c_total. Qed.
+Theorem C08_ttml_checked_propagate_total : forall a (p : N), propagate_c a <> Panic p.
+Proof. exact propagate_c_total. Qed.
+Example C08_ttml_unguarded_begin : exists root p, read_ttml_unguarded root = Panic p.
+Proof. exact ttml_unguarded_begin. Qed.
+Example C08_ttml_guarded_begin : read_ttml_c ttc_no_begin = Err EParse.
+Proof. exact ttml_guarded_begin. Qed.
+End C08_TTML.
+Print Assumptions C08_TTML.C08_ttml_checked_reader_total.
+Print Assumptions C08_TTML.C08_ttml_checked_writer_total.
+Print Assumptions C08_TTML.C08_ttml_checked_propagate_total.
